@@ -45,3 +45,95 @@ length = function(
   F + '::RefMap.__len__', params=[('self', RefMap)], returns=INT,
   ensures=['result == len(self._mapping)'], modifies=[], bindings=B, props=('C03',))
 SB = dict(B, **{'RefMap.__setitem__': setitem, 'RefMap.__getitem__': getitem, 'RefMap.__contains__': contains})
+
+# ---- what counts as a graph node: is_node / is_pytree_node / get_node_impl must agree -------------------------------
+# update / pop / iter_graph ask is_node, split / merge / clone / state ask get_node_impl: a value that one side
+# treats as a container and the other as a leaf is flattened by one operation and skipped by the other.
+TypeObj = opaque('TypeObject', is_str=False)
+Impl = opaque('NodeImpl', is_str=False, nullable=True)
+AnyObj = opaque('AnyObject', is_str=False)
+type_of = UFn('type_of', [AnyObj], TypeObj, 'type(x)')
+is_variable = UFn('is_variable_instance', [AnyObj], BOOL, 'isinstance(x, Variable)')
+is_tuple_type = UFn('is_tuple_subclass', [TypeObj], BOOL, 'issubclass(t, tuple)')
+AnyObj.type_hook = lambda ex, v: ex.call_value(type_of, [v], {})
+
+
+def _any_isinstance(ex, v, names):
+  hits = []
+  if 'Variable' in names:
+    hits.append(ex.call_value(is_variable, [v], {}).t)
+  if 'tuple' in names:
+    # isinstance(x, tuple) is issubclass(type(x), tuple)
+    hits.append(ex.call_value(is_tuple_type, [ex.call_value(type_of, [v], {})], {}).t)
+  if not hits:
+    raise OutsideSubset(f'isinstance of an arbitrary object against {sorted(names)}')
+  return z3.Or(*hits)
+
+
+AnyObj.isinstance_hook = _any_isinstance
+TypeObj.issubclass_hook = lambda ex, v, names: ex.call_value(is_tuple_type, [v], {}).t if names == {'tuple'} else (_ for _ in ()).throw(OutsideSubset('issubclass against ' + repr(names)))
+ImplMap = MapOf(TypeObj, Impl)
+TypeSet = SetOf(TypeObj)
+PYTREE_IMPL = GlobalVar('PYTREE_NODE_IMPL', Impl)
+NB = {'Variable': TypeTag('Variable'), 'tuple': TypeTag('tuple'), 'PYTREE_NODE_IMPL': PYTREE_IMPL}
+REGS = [('GRAPH_REGISTRY', ImplMap), ('PYTREE_REGISTRY', ImplMap), ('JAX_PYTREE_REGISTRY', TypeSet)]
+NONNULL = ['forall(TypeObject, lambda t: implies(t in GRAPH_REGISTRY, GRAPH_REGISTRY[t] is not None))',
+           'forall(TypeObject, lambda t: implies(t in PYTREE_REGISTRY, PYTREE_REGISTRY[t] is not None))',
+           'PYTREE_NODE_IMPL is not None']
+PYTREE_NODE = '(type_of(x) in JAX_PYTREE_REGISTRY or is_tuple_subclass(type_of(x)))'
+
+is_pytree_node = function(
+  F + '::is_pytree_node', params=[('x', AnyObj)], free=REGS[2:], returns=BOOL,
+  # registered jax pytrees and every tuple subclass (named tuples are not in jax's registry)
+  ensures=[f'result == {PYTREE_NODE}'],
+  bindings=NB, props=('C03',))
+is_node = function(
+  F + '::is_node', params=[('x', AnyObj)], free=[REGS[0], REGS[2]], returns=BOOL,
+  ensures=[f'result == (type_of(x) in GRAPH_REGISTRY or {PYTREE_NODE})'],
+  bindings=dict(NB, is_pytree_node=is_pytree_node), props=('C03',))
+get_node_impl = function(
+  F + '::get_node_impl', params=[('x', AnyObj)], free=REGS, returns=Impl,
+  requires=NONNULL,
+  ensures=[
+    'implies(is_variable_instance(x), result is None)',      # Variables are leaves
+    f'implies(not is_variable_instance(x), (result is not None) == (type_of(x) in GRAPH_REGISTRY or type_of(x) in PYTREE_REGISTRY or {PYTREE_NODE}))',
+    'implies(not is_variable_instance(x) and type_of(x) in GRAPH_REGISTRY, result == GRAPH_REGISTRY[type_of(x)])',
+  ],
+  bindings=NB, props=('C03',))
+lemma(
+  'is_node_agrees_with_get_node_impl', params=[('x', AnyObj)], free=REGS, returns=BOOL,
+  requires=NONNULL + ['not is_variable_instance(x)',
+                      # types registered only through register_pytree_node_type are outside this lemma (is_node does not consult PYTREE_REGISTRY)
+                      'implies(type_of(x) in PYTREE_REGISTRY, type_of(x) in JAX_PYTREE_REGISTRY)'],
+  ensures=['result'],
+  body='''
+a = is_node(x)
+b = get_node_impl(x)
+return a == (b is not None)
+''', bindings={'is_node': is_node, 'get_node_impl': get_node_impl, 'PYTREE_NODE_IMPL': PYTREE_IMPL}, props=('C03',))
+
+# ---- Variable.to_state: the state leaf carries the STORED value and all metadata -----------------------------------------
+VL = 'flax/nnx/variablelib.py'
+StoredVal = opaque('StoredValue', is_str=False)
+MetaKey = opaque('MetadataKey')
+MetaVal = opaque('MetadataValue', is_str=False)
+MetaMap = MapOf(MetaKey, MetaVal)
+VarObj = opaque('VariableObject', is_str=False)
+VarObj.attrs['raw_value'] = (StoredVal, None)      # what the Variable stores
+VarObj.attrs['value'] = (StoredVal, None)          # what on_get_value hooks make of it (another value in general)
+VarObj.attrs['_var_metadata'] = (MetaMap, None)
+var_type = UFn('variable_class', [VarObj], TypeObj, 'type(variable)')
+VarObj.type_hook = lambda ex, v: ex.call_value(var_type, [v], {})
+VState = Union('VariableStateRec', [Ctor('VState', [('type', TypeObj), ('value', StoredVal), ('metadata', MetaMap)], pytypes=('VariableState',))])
+
+
+def _mk_vstate(ex, a, kw):
+  md = ex.coerce(kw['**'], MetaMap) if '**' in kw else ex.empty_map(MetaMap)
+  return SV(VState, VState.mk('VState', ex.coerce(a[0], TypeObj).t, ex.coerce(a[1], StoredVal).t, md.t))
+
+
+to_state = function(
+  VL + '::Variable.to_state', params=[('self', VarObj)], returns=VState,
+  # merge(split(g)) keeps Variable values: the leaf must hold the stored value (not the value seen through get-value hooks)
+  ensures=['result.type == variable_class(self)', 'result.value == self.raw_value', 'result.metadata == self._var_metadata'],
+  bindings={'VariableState': Handler('VariableState', _mk_vstate, 'VariableState(type, value, **metadata): a record')}, props=('C03',))
